@@ -521,10 +521,23 @@ def op_rule(E, m, S):
 
 
 def op_add_reactions(E, m, S):
-    kinds = ["new", "new-with-new-gene", "copy-of-R1", "existing-id", "uses-copy-of-met", "id-with-blank"]
+    kinds = ["new", "new-with-new-gene", "copy-of-R1", "existing-id", "uses-copy-of-met", "id-with-blank", "two-sharing-a-new-met-id"]
     if getattr(S, "removed", None):
         kinds.append("previously-removed")
     kind = E.pick(S.tag("kind"), kinds)
+    if kind == "two-sharing-a-new-met-id":
+        # one call, two reactions, each built with its own Metabolite object for the same id that is new to the model
+        mid = S.tag("MS")
+        ra, rb = Reaction(S.tag("NEWA"), lower_bound=0, upper_bound=5), Reaction(S.tag("NEWB"), lower_bound=-5, upper_bound=5)
+        first = m.metabolites[0] if len(m.metabolites) else Metabolite("A", compartment="c")
+        ra.add_metabolites({first: -1, Metabolite(mid, compartment="c"): 1})
+        rb.add_metabolites({Metabolite(mid, compartment="c"): -2})
+
+        def ref2(R):
+            R.add_reaction(ra.id, {first.id: -1, mid: 1}, 0, 5)
+            R.add_reaction(rb.id, {mid: -2}, -5, 5)
+        _try(S, "add_reactions", lambda: m.add_reactions([ra, rb]), kind=kind, ref=ref2)
+        return
     if kind == "previously-removed":
         r = S.removed[-1]
         _try(S, "add_reactions", lambda: m.add_reactions([r]), kind=kind)        # no reference: the object kept its own state
@@ -685,7 +698,14 @@ def op_rename_genes(E, m, S):
     if not len(m.genes):
         return
     g = m.genes[0]
-    to = E.pick(S.tag("to"), ["new", "existing"])
+    to = E.pick(S.tag("to"), ["new", "existing", "two-onto-one-new"])
+    if to == "two-onto-one-new":
+        if len(m.genes) < 2:
+            return
+        # one call maps two genes onto the same id that is new to the model (merged by the second entry)
+        d = {m.genes[0].id: "g_new", m.genes[1].id: "g_new"}
+        _try(S, "rename_genes", lambda: rename_genes(m, d), g=g.id, to=to)
+        return
     tgt = "g_new" if to == "new" or len(m.genes) < 2 else m.genes[1].id
     _try(S, "rename_genes", lambda: rename_genes(m, {g.id: tgt}), g=g.id, to=to,
          ref=(lambda R, i=g.id: R.rename_gene(i, tgt)) if to == "new" or len(m.genes) < 2 else None)
